@@ -30,7 +30,7 @@ ALLOW = os.path.join(VERIF, 'trusted_allowlist.txt')
 MINIMUMS = os.path.join(VERIF, 'units', 'minimums.json')
 
 # properties whose witness search is deterministic (no timing, no socket-buffer dependence)
-WITNESS_FALLBACK = ('C01', 'C02', 'C03', 'C04', 'C05', 'C06', 'C11', 'C12', 'C13', 'C16')
+WITNESS_FALLBACK = ('C01', 'C02', 'C03', 'C04', 'C05', 'C06', 'C11', 'C12', 'C13', 'C16', 'C17')
 
 TRUST_PATTERNS = [r'\bassume\s*\(', r'\badmit\s*\(', r'external_body', r'assume_specification',
                   r'external_type_specification', r'external_trait_specification', r'\buninterp\b',
@@ -172,7 +172,7 @@ def canary_check(unit, seed, tier, repo):
                 fns=chosen, missed=sorted(set(chosen) - set(caught)))
 
 
-ALL_UNITS = ['conn', 'lemmas', 'oneshot', 'request', 'client', 'response']
+ALL_UNITS = ['conn', 'lemmas', 'oneshot', 'request', 'client', 'response', 'router']
 
 
 def inventory():
